@@ -162,19 +162,25 @@ def uni_data(d):
             _U[d] = np.full(20, 3.5)
         elif d == 'K2':
             _U[d] = np.full(12, -1.0)
+        elif d == 'K0':
+            _U[d] = np.zeros(15)                     # a falsy constant
+        elif d == 'C':
+            _U[d] = np.random.RandomState(13).beta(0.5, 0.5, 60) * 3.0 + 1.0      # Beta wins the selection
+        elif d == 'P':
+            _U[d] = np.array([1.0] * 21 + [0.0] * 29)     # scipy's beta.fit raises on this column
         else:
             raise KeyError(d)
     return _U[d].copy()
 
 
-UNI_X = np.concatenate([np.linspace(-30.0, 120.0, 31), [3.5, -1.0, 3.5 + 1e-9, -1.0 - 1e-9]])
+UNI_X = np.concatenate([np.linspace(-30.0, 120.0, 31), [3.5, -1.0, 3.5 + 1e-9, -1.0 - 1e-9, 0.0, 1e-9, -1e-9, 1.0, 2.5]])
 UNI_Q = np.array([0.001, 0.05, 0.25, 0.5, 0.75, 0.95, 0.999])
 
 
 class UniBinding(Binding):
     kind = 'uni'
-    valid = ('A', 'B', 'K1', 'K2')
-    const = ('K1', 'K2')
+    valid = ('A', 'B', 'K1', 'K2', 'K0')
+    const = ('K1', 'K2', 'K0')
     methods = ('pdf', 'cdf', 'ppf')
     json_ok = True
 
@@ -236,6 +242,10 @@ def _sel_cfgs():
 
 class SelectingBinding(UniBinding):
     """The selecting Univariate wrapper: serialises as the family it selected."""
+
+    # 'C': a table on which Beta wins; 'P': a table on which one candidate (Beta) cannot be fitted
+    valid = ('A', 'B', 'C', 'P', 'K1', 'K0')
+    const = ('K1', 'K0')
 
     def __init__(self):
         UniBinding.__init__(self, 'Univariate', _sel_cfgs(), draw=('c3',))
